@@ -40,6 +40,8 @@ OUT_JSON = "/verif/_work/gen/scalar_table.json"
 # abstract version of every formula (the partial / library operations are fields of a record
 # `ops`, see coq/Backend/AbsOps.v); used by the C08 elementwise theorems
 OUT_ABS_V = "/verif/coq/Gen/ScalarGenAbs.v"
+# inventory of everything under devices/naive/ops (completeness of the translation; see inventory())
+OUT_INV_V = "/verif/coq/Gen/ScalarInventory.v"
 _ABS = [False]      # coq_t prints `/` as (op_div o a b) while this is set (abstract pown)
 
 
@@ -1004,6 +1006,161 @@ def collect():
     return defs, errors
 
 
+# ------------------------------------------------------------------ inventory (completeness)
+#
+# The translation above is driven by what it recognises: an invocation of a macro kind it does not
+# know, a hand-written kernel function it has no reader for, a whole new file, or text switched
+# on/off by the preprocessor would otherwise be ignored in silence.  inventory() lists EVERYTHING
+# under devices/naive/ops and says what the translator made of it; Gen/ScalarInventory.v carries that
+# as Coq data and Props/Properties_C01_inventory.v requires: no UNKNOWN entry, every invocation and
+# every hand-written function of an elementwise file translated, every file outside the translation on
+# the reviewed list coq/Scalar/Inventory.v reviewed_kernels (the Coq list is the one that counts; the
+# copy below only decides the label), no conditional compilation inside the translated text.
+
+# hand-written kernels that are NOT elementwise formulas (data movement, reductions, products, random
+# numbers, memory): modelled by the tensor / random / cow engines, not by this translator
+REVIEWED_KERNELS = {        # file -> number of `Naive::` functions it had when reviewed (mirror of the Coq list)
+    "argmax.cc": 1, "argmin.cc": 1, "batch_concat.cc": 1, "batch_pick.cc": 2, "batch_slice.cc": 2, "batch_sum.cc": 1,
+    "broadcast.cc": 1, "concat.cc": 1, "conv2d.cc": 2, "copy_tensor.cc": 1, "dump_description.cc": 1, "flip.cc": 2,
+    "identity.cc": 1, "inplace_add.cc": 1, "inplace_multiply_const.cc": 1, "inplace_subtract.cc": 1, "matmul.cc": 2,
+    "max.cc": 2, "max_pool2d.cc": 2, "min.cc": 2, "new_handle.cc": 1, "permute_dims.cc": 2, "pick.cc": 2,
+    "random_bernoulli.cc": 1, "random_log_normal.cc": 1, "random_normal.cc": 1, "random_uniform.cc": 1,
+    "reset_tensor.cc": 1, "reset_tensor_by_array.cc": 1, "slice.cc": 2, "sum.cc": 1, "tensor_to_vector.cc": 1,
+    "transpose.cc": 2}
+# helper macros of common.h whose meaning the translation relies on, with their reviewed bodies
+# (whitespace-normalised): REPEAT_OP is THE per-element loop, CDATA/MDATA the operand pointers
+REVIEWED_HELPERS = {
+    "MAYBE_USED(x)": "static_cast<void>(x)",
+    "CDATA(x)": "static_cast<const float *>(get_handle(x))",
+    "MDATA(x)": "static_cast<float *>(get_mutable_handle(x))",
+    "REPEAT_OP(i, n, op)": "for (std::uint32_t i = 0; i < (n); ++i) { (op); }",
+}
+ANY_CPUDEV_RE = re.compile(r"\b(CPUDEV_\w+)\s*\(")
+NAIVE_FN_RE = re.compile(r"\bNaive::(\w+)\s*\(")
+DIRECTIVE_RE = re.compile(r"^[ \t]*#[ \t]*(\w+)(.*)$", re.M)
+# hand-written functions this translator reads, per file
+TRANSLATED_FUNCTIONS = {"add.cc": {"add_bw_impl": ["bw_add_a", "bw_add_b"]}, "subtract.cc": {"subtract_bw_impl": ["bw_subtract_a", "bw_subtract_b"]},
+                        "multiply.cc": {"multiply_bw_impl": ["bw_multiply_a", "bw_multiply_b"]}, "divide.cc": {"divide_bw_impl": ["bw_divide_a", "bw_divide_b"]},
+                        "pow.cc": {"pow_bw_impl": ["bw_pow_a", "bw_pow_b"]}, "pown.cc": {"pown_fw_impl": ["fw_pown"], "pown_bw_impl": ["bw_pown"]},
+                        "logsumexp.cc": {"logsumexp_fw_impl": ["fw_logsumexp_step"]}}
+
+
+def inventory(defs):
+    """-> dict(files=[...], macros=[...], conditionals=[...]) for the current tree (see above)."""
+    d = ops_dir()
+    ok_defs = {x["name"] for x in defs if x.get("expr") is not None or x.get("coqdef")}
+    by_src = {}
+    for x in defs:
+        by_src.setdefault(x["src"].split(":")[0], []).append(x)
+    conds = []
+    # ---- common.h: every macro it defines
+    raw = open(os.path.join(d, "common.h")).read()
+    text = re.sub(r"\\\n", " \v", strip_comments(raw))      # join continuation lines (\v keeps the line count)
+    try:
+        parsed = read_macros(strip_comments(raw))
+    except Unsupported:
+        parsed = {}
+    macros, seen, guard = [], set(), None
+    directives = list(DIRECTIVE_RE.finditer(text))
+    for n, m in enumerate(directives):
+        kind, rest = m.group(1), " ".join(m.group(2).split())
+        line = text.count("\n", 0, m.start()) + text.count("\v", 0, m.start()) + 1
+        if kind == "define":
+            mm = re.match(r"(\w+)(\([^)]*\))?\s*(.*)$", rest)
+            name, params, body = mm.group(1), mm.group(2) or "", mm.group(3)
+            if guard is not None and name == guard and n == 1 and not params and not body:
+                continue                                     # the include guard
+            head = name + " ".join(params.replace(",", ", ").split())
+            if name in seen:
+                conds.append("common.h:%d: macro %s defined twice" % (line, name))
+            seen.add(name)
+            if name.startswith("CPUDEV_"):
+                cls = "MKind" if (name in parsed and name in ROLE_BY_PARAM) else "MUnknown"
+            else:
+                cls = "MHelper" if REVIEWED_HELPERS.get(head) == body else "MUnknown"
+            macros.append((name, cls))
+        elif kind == "ifndef" and n == 0 and len(directives) >= 3 and directives[-1].group(1) == "endif":
+            guard = rest.split()[0] if rest else None        # include guard: #ifndef G / #define G / ... / #endif
+        elif kind == "endif" and n == len(directives) - 1 and guard is not None:
+            continue
+        elif kind != "include":
+            conds.append("common.h:%d: #%s %s" % (line, kind, rest))
+    # ---- every *.cc
+    files = []
+    for fn in sorted(os.listdir(d)):
+        if not fn.endswith(".cc"):
+            continue
+        text = strip_comments(open(os.path.join(d, fn)).read())
+        inv = [m.group(1) for m in ANY_CPUDEV_RE.finditer(text)]
+        fns = [m.group(1) for m in NAIVE_FN_RE.finditer(text)]
+        mine = by_src.get(fn, [])
+        inv_ok = sum(1 for x in mine if x["kind"].startswith("CPUDEV_") and x["name"] in ok_defs)
+        tf = TRANSLATED_FUNCTIONS.get(fn, {})
+        fn_ok = sum(1 for f in fns if f in tf and all(n in ok_defs for n in tf[f]))
+        if inv or any(f in tf for f in fns):
+            cls = "FElementwise"
+        elif REVIEWED_KERNELS.get(fn) == len(fns):
+            cls = "FKernel"
+        else:
+            cls = "FUnknown"
+        files.append({"name": fn, "class": cls, "invocations": len(inv), "invocations_translated": inv_ok,
+                      "functions": len(fns), "functions_translated": fn_ok})
+        if cls == "FElementwise":
+            for m in DIRECTIVE_RE.finditer(text):
+                if m.group(1) != "include":
+                    conds.append("%s:%d: #%s %s" % (fn, text.count("\n", 0, m.start()) + 1, m.group(1), " ".join(m.group(2).split())))
+    others = sorted(f for f in os.listdir(d) if not f.endswith(".cc") and f != "common.h")
+    for f in others:
+        files.append({"name": f, "class": "FUnknown", "invocations": 0, "invocations_translated": 0, "functions": 0, "functions_translated": 0})
+    return {"files": files, "macros": macros, "conditionals": conds}
+
+
+def inventory_offenders(inv):
+    """What breaks the obligation of Props/Properties_C01_inventory.v, in words (for the reports)."""
+    out = []
+    for f in inv.get("files", []):
+        if f["class"] == "FUnknown":
+            out.append("%s: UNKNOWN (not an elementwise file the translator reads and not a reviewed kernel with the reviewed "
+                       "number of functions: %d CPUDEV_* invocations, %d Naive:: functions)" % (f["name"], f["invocations"], f["functions"]))
+        elif f["class"] == "FElementwise" and (f["invocations"] != f["invocations_translated"] or f["functions"] != f["functions_translated"]):
+            out.append("%s: %d of %d CPUDEV_* invocations and %d of %d hand-written functions translated"
+                       % (f["name"], f["invocations_translated"], f["invocations"], f["functions_translated"], f["functions"]))
+    out += ["common.h: macro %s is UNKNOWN (new CPUDEV_* kind, or a helper whose body is not the reviewed text)" % n
+            for n, c in inv.get("macros", []) if c == "MUnknown"]
+    out += ["preprocessor directive inside the translated text: %s" % c for c in inv.get("conditionals", [])]
+    return out
+
+
+def coq_str(t):
+    return '"' + t.replace('"', '""') + '"'
+
+
+def render_inventory(inv):
+    L = []
+    w = L.append
+    w("(* GENERATED by translate/gen_scalar.py from primitiv/devices/naive/ops/{common.h,*.cc} -- do not edit.")
+    w("   Inventory of everything in that directory and what the translator made of it; regenerated on every")
+    w("   check.  Obligations: Props/Properties_C01_inventory.v (types and the reviewed list: Scalar/Inventory.v). *)")
+    w("From Coq Require Import List String.")
+    w("From PV Require Import Scalar.Inventory.")
+    w("Import ListNotations.")
+    w("Local Open Scope string_scope.")
+    w("")
+    w("(* file, class, CPUDEV_* invocations, of which translated, hand-written Naive:: functions, of which translated *)")
+    w("Definition inv_files : list file_entry :=")
+    w("  [" + ";\n   ".join("mk_file %s %s %d %d %d %d" % (coq_str(f["name"]), f["class"], f["invocations"], f["invocations_translated"],
+                                                            f["functions"], f["functions_translated"]) for f in inv["files"]) + "].")
+    w("")
+    w("(* every macro defined in common.h *)")
+    w("Definition inv_macros : list (string * macro_class) :=")
+    w("  [" + ";\n   ".join("(%s, %s)" % (coq_str(n), c) for n, c in inv["macros"]) + "].")
+    w("")
+    w("(* preprocessor directives other than #include (and the include guard / the #defines of common.h) inside the translated text *)")
+    w("Definition inv_conditionals : list string :=")
+    w("  [" + ";\n   ".join(coq_str(c) for c in inv["conditionals"]) + "].")
+    return "\n".join(L) + "\n"
+
+
 def render(defs, errors):
     L = []
     w = L.append
@@ -1097,9 +1254,10 @@ def write_if_changed(path, content):
             return False
     except OSError:
         pass
-    with open(path + ".tmp", "w") as f:
+    tmp = "%s.tmp.%d" % (path, os.getpid())      # concurrent checks regenerate the same file
+    with open(tmp, "w") as f:
         f.write(content)
-    os.replace(path + ".tmp", path)
+    os.replace(tmp, path)
     return True
 
 
@@ -1111,7 +1269,15 @@ def main():
     except Exception as ex:  # noqa: BLE001  (the abstract file serves C08 only; never disturb C01/C02)
         write_if_changed(OUT_ABS_V, "(* GENERATED by translate/gen_scalar.py: abstract version could not be printed: %s *)\n"
                          % str(ex).replace("*)", "* )"))
-    write_if_changed(OUT_JSON, json.dumps(table(defs, errors), indent=1, sort_keys=True))
+    t = table(defs, errors)
+    try:
+        inv = inventory(defs)
+    except Exception as ex:  # noqa: BLE001  (an inventory that cannot be taken must break its obligation, nothing else)
+        inv = {"files": [{"name": "inventory failed: %s" % str(ex)[:200], "class": "FUnknown", "invocations": 0,
+                          "invocations_translated": 0, "functions": 0, "functions_translated": 0}], "macros": [], "conditionals": []}
+    write_if_changed(OUT_INV_V, render_inventory(inv))
+    t["inventory"] = inv
+    write_if_changed(OUT_JSON, json.dumps(t, indent=1, sort_keys=True))
     return defs, errors
 
 
